@@ -888,3 +888,32 @@ def _exec(M: Machine, prog: Program, single=False, trace=False):
     res.scratch = dict(scratch)
     res.steps += steps
     return status
+
+
+def _canary():
+    """Run at import: the reference interpreter must give the specified outcome on a handful of programs that exercise each way a
+    program can end (approve / reject / fail) - an interpreter that approves everything would make every equivalence check pass."""
+    P = "#pragma version 8\n"
+    cases = [
+        (P + "int 2\nint 3\n+\nitob\nlog\nint 1\nreturn\n", ("approve", [(5).to_bytes(8, "big")])),
+        (P + "int 0\nreturn\n", ("reject", [])),
+        (P + "err\n", ("fail", [])),
+        (P + "int 1\nint 0\n/\nreturn\n", ("fail", [])),
+        (P + "int 18446744073709551615\nint 1\n+\nreturn\n", ("fail", [])),
+        (P + "int 3\nint 5\n-\nreturn\n", ("fail", [])),
+        (P + 'byte "ab"\nbyte 0x63\nconcat\nlog\nint 1\nreturn\n', ("approve", [b"abc"])),
+        (P + "int 0\nbnz skip\nint 7\nitob\nlog\nskip:\nint 1\nreturn\n", ("approve", [(7).to_bytes(8, "big")])),
+        (P + "int 1\nbnz skip\nint 7\nitob\nlog\nskip:\nint 1\nreturn\n", ("approve", [])),
+        (P + "int 4\ncallsub dbl\nitob\nlog\nint 1\nreturn\ndbl:\nint 2\n*\nretsub\n", ("approve", [(8).to_bytes(8, "big")])),
+        (P + "int 9\nstore 3\nload 3\nload 4\n+\nitob\nlog\nint 1\nreturn\n", ("approve", [(9).to_bytes(8, "big")])),
+        (P + 'byte "a"\nint 1\n+\nreturn\n', ("fail", [])),
+        (P + "int 1\nint 2\nreturn\n", ("approve", [])),
+        (P + "+\nint 1\nreturn\n", ("fail", [])),
+    ]
+    for teal, (verdict, logs) in cases:
+        r = run(teal, Ctx())
+        if r.verdict != verdict or (verdict == "approve" and list(r.logs) != logs):
+            raise RuntimeError(f"spec.avm canary: {teal!r} gives {(r.verdict, r.logs, r.detail)}, the specification says {(verdict, logs)}")
+
+
+_canary()
